@@ -10,7 +10,7 @@ import (
 
 func init() {
 	checks["C16"] = func(run *report.Run) error {
-		run.Rule = "histories of 1–12 ReadEntity calls on one compressor provider (sync.Pool provider; bounded provider with capacity 0, 1, 2); every body is the output of the real entity writer (WriteEntity / WriteAsJson / WriteJson / WriteAsXml, pretty on/off) for a generated value (int64/uint64 extremes and 2^53±1, any-unicode strings — one in six made of text that looks like the codecs' own escape syntax: backslash-uXXXX and other backslash sequences, HTML/XML entities and section markers, percent-encoding, quotes, < > & — as values and map keys, nesting, slices, maps and interface{} targets for JSON), sent plain, gzip (5 levels) or deflate coded — by Go's own writers, or (half of the coded bodies) by another legal encoder: a zlib stream built by hand with any RFC 1950 header (window 2^8…2^15, i.e. CMF 0x08…0x78, FLEVEL 0…3, FCHECK to match; raw deflate data of 7 compress/flate levels, without back-references when the payload exceeds the declared window; Adler-32 trailer), a gzip header with file name / comment / extra field / mtime / OS byte —, good (≈60 %) or truncated / trailer cut / bytes flipped / checksum or magic damaged / stored-block payload changed / empty / garbage / trailing garbage / followed by a cut second member, under 18 Content-Type spellings and exact, wrong and odd Content-Encoding values, 6 default-request-content-type settings; the last third of the reads runs with three extra registered keys; evaluations = reads inside histories (each is read a second time alone on a fresh provider); a read is non-trivial unless it is the plain 400 path; distinct = distinct (provider, default, Content-Type, Content-Encoding, body, target type, model path). Before the stream: the former witnesses of the finding F61 repaired by 75d0593 (a gzip/deflate stream that breaks after a complete document: CRC/Adler damaged, trailer cut by 1–8 bytes, garbage or a cut second member after the gzip member; JSON and XML; reader found exactly, by substring, by default; one pooled reader through good and broken bodies) are executed as regressions and replays/F61.json is re-executed from the file: each must be answered with an error (a failure is a VIOLATION with that history as replay), and the predicate must still reject the answer recorded before the repair; likewise the former witness of the finding F62 repaired by 8b400b4 (a Content-Type in which two registered keys with different readers occur — application/xml; x=\"application/json\" —: 12 identical reads of a faithful XML body, the mirrored spelling with a JSON body, both interleaved under all codings, a default request content type naming both keys; each history run 5 times, every read must return the value written) and replays/F62.json re-executed from the file. No class excuses a failing read: the classes of the repaired F61 and F62 are computed on both sides, counted (coverage.repaired_findings) and excuse nothing; the check fails if fewer than 2 % of the reads of a run visit the F61 class (measured ≈ 11 %) or fewer than 0.25 % with either coding (measured: gzip ≈ 9 %, deflate ≈ 1.7 %), or fewer than 0.25 % the F62 class"
+		run.Rule = "histories of 1–12 ReadEntity calls on one compressor provider (sync.Pool provider; bounded provider with capacity 0, 1, 2); every body is the output of the real entity writer (WriteEntity / WriteAsJson / WriteJson / WriteAsXml, pretty on/off) for a generated value (int64/uint64 extremes and 2^53±1, any-unicode strings — one in six made of text that looks like the codecs' own escape syntax: backslash-uXXXX and other backslash sequences, HTML/XML entities and section markers, percent-encoding, quotes, < > & — as values and map keys, nesting, slices, maps and interface{} targets for JSON), sent plain, gzip (5 levels) or deflate coded — by Go's own writers, or (half of the coded bodies) by another legal encoder: a zlib stream built by hand with any RFC 1950 header (window 2^8…2^15, i.e. CMF 0x08…0x78, FLEVEL 0…3, FCHECK to match; raw deflate data of 7 compress/flate levels, without back-references when the payload exceeds the declared window; Adler-32 trailer), a gzip header with file name / comment / extra field / mtime / OS byte —, good (≈60 %) or truncated / trailer cut / bytes flipped / checksum or magic damaged / stored-block payload changed / empty / garbage / trailing garbage / followed by a cut second member, under 18 Content-Type spellings and exact, wrong and odd Content-Encoding values, 6 default-request-content-type settings; the last third of the reads runs with three extra registered keys; a quarter of the reads are a LATER ReadEntity on the *restful.Request of the read before them (a filter reads the entity and the next stage reads again: the same bytes put back under the same headers in three cases of five, else another body and other entity headers put in their place), and half of the requests are dispatched by a real container, the reads on them performed by container, web-service and route filters and the route function instead of a direct call (coverage.later_reads_on_the_same_request_object; the check fails if fewer than 4 % of the reads are such later reads, or hardly any faithful gzip / deflate body among them); evaluations = reads inside histories (each is read a second time alone: a request of its own on a fresh provider); a read is non-trivial unless it is the plain 400 path; distinct = distinct (provider, default, Content-Type, Content-Encoding, body, target type, model path). Before the stream: the former witnesses of the finding F61 repaired by 75d0593 (a gzip/deflate stream that breaks after a complete document: CRC/Adler damaged, trailer cut by 1–8 bytes, garbage or a cut second member after the gzip member; JSON and XML; reader found exactly, by substring, by default; one pooled reader through good and broken bodies) are executed as regressions and replays/F61.json is re-executed from the file: each must be answered with an error (a failure is a VIOLATION with that history as replay), and the predicate must still reject the answer recorded before the repair; likewise the former witness of the finding F62 repaired by 8b400b4 (a Content-Type in which two registered keys with different readers occur — application/xml; x=\"application/json\" —: 12 identical reads of a faithful XML body, the mirrored spelling with a JSON body, both interleaved under all codings, a default request content type naming both keys; each history run 5 times, every read must return the value written) and replays/F62.json re-executed from the file. No class excuses a failing read: the classes of the repaired F61 and F62 are computed on both sides, counted (coverage.repaired_findings) and excuse nothing; the check fails if fewer than 2 % of the reads of a run visit the F61 class (measured ≈ 11 %) or fewer than 0.25 % with either coding (measured: gzip ≈ 9 %, deflate ≈ 1.7 %), or fewer than 0.25 % the F62 class"
 		run.Trusted = []string{
 			"encoding/json, encoding/xml, compress/gzip, compress/zlib enter the theorems as the hypotheses CodecLaws (json_round, xml_round, gz_round, zl_round, reset_law); each is checked against the standard library on every value and body of the run (validated_hypotheses)",
 			"a reader is modelled as a Stream: the bytes it delivers, then ONE terminal condition (clean EOF or error) that it keeps — an entity decoder that stops after the first document followed by reading on to the end meets the same end as reading everything at once; checked on every body for gzip (reused reader) and zlib, after the JSON and after the XML decoder (validated_hypotheses.terminal_kept)",
